@@ -2,7 +2,8 @@
 
 Vocabulary (identical to Merge.tla):
   case  = {cells: [cellA, cellB], mdoc, place, order}
-  cell  = {rk, sk, rdoc, sdoc, rann, sann, sret, spar, rov, sov, irk, isk, ibare}
+  cell  = {rk, sk, rdoc, sdoc, rann, sann, sret, rpar, spar, rov, sov, irk, isk, ibare}
+          rpar in two|none (runtime function has parameters p, q / none); spar in same|diff|none (stub: p, q / p, r / none)
           rk in abs|cls|fun|att|al_ext|al_fun|al_cls|al_att      (runtime side of the name)
           sk in abs|cls|fun|att|al|ovo                            (stub side; ovo = @overload signatures only)
           irk/isk: the same for the inner name `u` of a class (no nested classes with members)
@@ -126,7 +127,7 @@ def render_side(case: dict, side: str) -> str:
             if k == "cls":
                 out += _cls("rt", name, c["rdoc"], c["irk"], c["ibare"])
             elif k == "fun":
-                out += _fun(name, ["p", "q"], ann, ann, doc, "", False, False, c["rov"])
+                out += _fun(name, ["p", "q"] if c.get("rpar", "two") == "two" else [], ann, ann, doc, "", False, False, c["rov"])
             elif k == "att":
                 out += _att(name, ann, doc, "", False)
             elif k == "al_ext":
@@ -144,7 +145,7 @@ def render_side(case: dict, side: str) -> str:
             if k == "cls":
                 out += _cls("st", name, c["sdoc"], c["isk"], False)
             elif k == "fun":
-                params = ["p", "q"] if c["spar"] == "same" else ["p", "r"]
+                params = {"same": ["p", "q"], "diff": ["p", "r"], "none": []}[c["spar"]]
                 out += _fun(name, params, ann, "ST" if c["sret"] else None, doc, "", False, True, c["sov"])
             elif k == "att":
                 out += _att(name, ann, doc, "", True)
